@@ -85,6 +85,11 @@ def _worker(job):
         opts = pipe_common.sample_config(rng, "mixed" if profile == "c11" else profile)
         if rng.random() < 0.1:
             opts.append("--force-symmetric-int-weights")
+        for e in getattr(net, "extra_opts", []):
+            # options a generated case asks for (--force-symmetric-int-weights for CPU-resident convolutions with asymmetric weights);
+            # left out now and then: the same network without the option is the control
+            if e not in opts and rng.random() < 0.85:
+                opts.append(e)
         data = netgen.serialize(net)
         out.update(desc=net.describe(), opts=opts, features=net_features(net), src_model=data)
         res = pipeline.compile_net(data, opts, name=f"n{idx}", introspect=False)
